@@ -15,7 +15,7 @@ func init() {
 	register(&propertyDef{
 		id:    "C07",
 		title: "run-time failures surface as errors, never as a crash",
-		rules: []ruleFunc{c07R1, c07R2, c07R3, c07R4, c07R5, c07R6},
+		rules: []ruleFunc{c07R1, c07R2, c07R3, c07R4, c07R5, c07R6, c07R7},
 		decided: "no explicit panic is reachable in the run path except tabled internal invariants, some of which are discharged by checking their static reason (R1); " +
 			"every unchecked type assertion in the run path is justified by a dominating validation or by construction (R2); the error of expression resolution in the notify loop is routed to the error report, cancel and return (R3); " +
 			"(thorough) integer division/remainder in the expression evaluator is guarded by a zero test (R4); values tested for absence are not dereferenced on the failing branch (R5). Shared: variables shared with goroutines are written under a lock — concurrent map writes abort the process (R6 = C17.R2).",
@@ -1119,4 +1119,127 @@ func (c *Ctx) closedSetBefore(fn, root *ssa.Function, depth int) bool {
 		}
 	}
 	return n > 0
+}
+
+// C07.R7 no write into a nil map in the run path (a run-time panic that no error path catches).
+func c07R7(c *Ctx) {
+	const rule = "C07.R7"
+	c.explain("C07.R7 every map update in the run path targets a map that is provably non-nil: a fresh make/literal, a variable or struct field all of whose stores are such maps, a phi of such maps, or a map of the run's data model (built from map literals in Execute, see R2's data-literal check)")
+	dataF := c.fLoop("data")
+	var nonNil func(v ssa.Value, d int) (bool, string)
+	allStoresNonNil := func(cell ssa.Value, d int) (bool, string) {
+		refs := cell.Referrers()
+		if refs == nil {
+			return false, "no stores found"
+		}
+		n := 0
+		for _, ref := range *refs {
+			if st, ok := ref.(*ssa.Store); ok && st.Addr == cell {
+				n++
+				if ok2, why := nonNil(st.Val, d+1); !ok2 {
+					return false, why
+				}
+			}
+		}
+		return n > 0, "no stores found"
+	}
+	nonNil = func(v ssa.Value, d int) (bool, string) {
+		if d > 8 {
+			return false, "too deep"
+		}
+		switch x := v.(type) {
+		case *ssa.MakeMap:
+			return true, ""
+		case *ssa.Phi:
+			for _, e := range x.Edges {
+				if e == ssa.Value(x) {
+					continue
+				}
+				if ok, why := nonNil(e, d+1); !ok {
+					return false, why
+				}
+			}
+			return true, ""
+		case *ssa.ChangeType:
+			return nonNil(x.X, d+1)
+		case *ssa.TypeAssert:
+			if derivesFrom(x.X, func(y ssa.Value) bool { return loadedField(y) == dataF }) {
+				return true, ""
+			}
+			return false, "asserted value of unknown origin (" + valueOrigin(x.X) + ")"
+		case *ssa.UnOp:
+			switch y := x.X.(type) {
+			case *ssa.Alloc:
+				return allStoresNonNil(y, d)
+			case *ssa.FreeVar:
+				// the captured cell in the enclosing function
+				fn := y.Parent()
+				if fn.Parent() != nil {
+					for i, fv := range fn.FreeVars {
+						if fv != y {
+							continue
+						}
+						ok := false
+						why := "binding not found"
+						eachInstr(fn.Parent(), func(r instrRef) {
+							if mc, isMC := r.I.(*ssa.MakeClosure); isMC && mc.Fn == ssa.Value(fn) && i < len(mc.Bindings) {
+								ok, why = allStoresNonNil(mc.Bindings[i], d)
+							}
+						})
+						return ok, why
+					}
+				}
+				return false, "captured variable not resolved"
+			case *ssa.FieldAddr:
+				f := fieldAddrVar(y)
+				if f == nil {
+					return false, "unknown field"
+				}
+				// every store to this field anywhere in the repo stores a non-nil map
+				n := 0
+				bad := ""
+				for _, fn := range c.RepoFns {
+					eachInstr(fn, func(r instrRef) {
+						st, ok := r.I.(*ssa.Store)
+						if !ok {
+							return
+						}
+						fa, ok := st.Addr.(*ssa.FieldAddr)
+						if !ok || fieldAddrVar(fa) != f {
+							return
+						}
+						n++
+						if ok2, why := nonNil(st.Val, d+1); !ok2 && bad == "" {
+							bad = "field " + f.Name() + " is stored a possibly nil map in " + c.fnName(fn) + " (" + why + ")"
+						}
+					})
+				}
+				if n == 0 {
+					return false, "field " + f.Name() + " is never initialised"
+				}
+				return bad == "", bad
+			}
+		}
+		return false, "origin: " + valueOrigin(v)
+	}
+	n := 0
+	cnt := map[string]int{}
+	for _, fn := range c.inPkgs(c.runFns(), pkgWorkflow, pkgPlugin, pkgForeach) {
+		eachInstr(fn, func(r instrRef) {
+			mu, ok := r.I.(*ssa.MapUpdate)
+			if !ok {
+				return
+			}
+			n++
+			if _, fresh := mu.Map.(*ssa.MakeMap); fresh {
+				return // the common case: not worth an obligation each
+			}
+			cnt[c.fnName(fn)]++
+			key := fmt.Sprintf("map-write@%s#%d", c.fnName(fn), cnt[c.fnName(fn)])
+			okNN, why := nonNil(mu.Map, 0)
+			c.verdict(okNN, rule, key, c.instrPos(mu), "the updated map cannot be nil ("+valueOrigin(mu.Map)+")",
+				"this map update in the run path can hit a nil map ("+why+"): `assignment to entry in nil map` is a panic that kills the process instead of surfacing as an error")
+		})
+	}
+	c.minCount(rule, "map updates in the run path", n, 20)
 }
